@@ -1,0 +1,52 @@
+//go:build verif
+
+// Contracts for package main (vflow), checked by /verif/govc (comment-only file; it declares nothing).
+package main
+
+//@ noop (*log.Logger).*
+
+// what a receive loop hands to its workers: a datagram in a pool buffer, its source address, and
+// (happens-before through the channel) the template cache already loaded
+//@ chaninv ipfixUDPCh m: m.raddr != nil && len(m.body) <= 65535 && cap(m.body) >= opts.IPFIXUDPSize && opts != nil && opts.IPFIXUDPSize >= 0 && wellFormed(mCache)
+//@ poolinv ipfixBuffer x: iskind(x, bytes) && typeid(x) == tyof([]byte) && len(anybytes(x)) == opts.IPFIXUDPSize && cap(anybytes(x)) >= opts.IPFIXUDPSize
+
+//@ func (*IPFIX).ipfixWorker
+//@   requires opts != nil && opts.IPFIXUDPSize >= 0
+//@   opt nonterminating
+//@   opt allocbound 65535   // copies of the received datagram and of its JSON encoding
+//@   modifies i.stats.DecodedCount, mCache
+//@   loop 1
+//@     invariant opts != nil && opts == old(opts) && opts.IPFIXUDPSize >= 0 && buf != nil && i != nil && cap(msg.body) >= opts.IPFIXUDPSize
+
+//@ chaninv netflowV9UDPCh m: m.raddr != nil && len(m.body) <= 65535 && cap(m.body) >= opts.NetflowV9UDPSize && opts != nil && opts.NetflowV9UDPSize >= 0 && wellFormed9(mCacheNF9)
+//@ poolinv netflowV9Buffer x: iskind(x, bytes) && typeid(x) == tyof([]byte) && len(anybytes(x)) == opts.NetflowV9UDPSize && cap(anybytes(x)) >= opts.NetflowV9UDPSize
+
+//@ func (*NetflowV9).netflowV9Worker
+//@   requires opts != nil && opts.NetflowV9UDPSize >= 0
+//@   opt nonterminating
+//@   opt allocbound 65535
+//@   modifies i.stats.DecodedCount, mCacheNF9
+//@   loop 1
+//@     invariant opts != nil && opts == old(opts) && opts.NetflowV9UDPSize >= 0 && buf != nil && i != nil && cap(msg.body) >= opts.NetflowV9UDPSize
+
+//@ chaninv netflowV5UDPCh m: m.raddr != nil && len(m.body) <= 65535 && cap(m.body) >= opts.NetflowV5UDPSize && opts != nil && opts.NetflowV5UDPSize >= 0
+//@ poolinv netflowV5Buffer x: iskind(x, bytes) && typeid(x) == tyof([]byte) && len(anybytes(x)) == opts.NetflowV5UDPSize && cap(anybytes(x)) >= opts.NetflowV5UDPSize
+
+//@ func (*NetflowV5).netflowV5Worker
+//@   requires opts != nil && opts.NetflowV5UDPSize >= 0
+//@   opt nonterminating
+//@   opt allocbound 65535
+//@   modifies i.stats.DecodedCount
+//@   loop 1
+//@     invariant opts != nil && opts == old(opts) && opts.NetflowV5UDPSize >= 0 && buf != nil && i != nil && cap(msg.body) >= opts.NetflowV5UDPSize
+
+//@ chaninv sFlowUDPCh m: m.raddr != nil && len(m.body) <= 65535 && cap(m.body) >= opts.SFlowUDPSize && opts != nil && opts.SFlowUDPSize >= 0
+//@ poolinv sFlowBuffer x: iskind(x, bytes) && typeid(x) == tyof([]byte) && len(anybytes(x)) == opts.SFlowUDPSize && cap(anybytes(x)) >= opts.SFlowUDPSize
+
+//@ func (*SFlow).sFlowWorker
+//@   requires opts != nil && opts.SFlowUDPSize >= 0
+//@   opt nonterminating
+//@   opt allocbound 65535
+//@   modifies s.stats.DecodedCount
+//@   loop 1
+//@     invariant opts != nil && opts == old(opts) && opts.SFlowUDPSize >= 0 && s != nil
